@@ -31,6 +31,9 @@ var (
 	iBo   = u.F("iBo", "{B?}", "")
 	iAo   = u.F("iAo", "{A?}", "")
 	iNest = u.F("iNest", "{{B?};A?}", "")
+	pBnr  = u.F("pBnr", "{{A}}", "B")               // required edge in a nested object
+	pBne  = u.F("pBne", "", "B,error", u.Name("n")) // named value whose constructor may fail
+	iBnO  = u.F("iBnO", "{B@n?}", "")
 
 	fG1  = u.F("fG1", "", "A", u.Group("g"))
 	fG1b = u.F("fG1b", "", "A", u.Group("g"))
@@ -196,8 +199,8 @@ func c04Units(tier string) []Unit {
 		tag := fmt.Sprintf("/defer=%v", def)
 		add("chain-required-optional"+tag, cfg, nil, prefixChild, alpha{scopes: scopes2, ctors: []*uFunc{pA, pB, pBo, pCb, pCob}, export: true,
 			invokes: []*uFunc{iC, iCo, iB, iBo}}, d, b)
-		add("nested-and-named-optional"+tag, cfg, nil, prefixChild, alpha{scopes: scopes2, ctors: []*uFunc{pA, pAn, pBno, pBn2, pCb}, export: !q,
-			invokes: []*uFunc{iC, iB, iNest, iO2}}, d, b)
+		add("nested-and-named-optional"+tag, cfg, nil, prefixChild, alpha{scopes: scopes2, ctors: []*uFunc{pA, pAn, pBno, pBn2, pBnr, pCb}, export: !q,
+			invokes: []*uFunc{iC, iB, iBo, iNest, iO2}}, d, b)
 		add("through-groups"+tag, cfg, nil, prefixChild, alpha{scopes: scopes2, ctors: []*uFunc{pA, fBgA, pCgb, pCob}, export: !q,
 			invokes: []*uFunc{iC, iCo, iGB}}, d, b)
 		if !q {
@@ -210,9 +213,9 @@ func c04Units(tier string) []Unit {
 	// an optional tag never hides an error returned by a constructor
 	for _, beh := range []u.Beh{u.BehErr, u.BehPanic, u.BehErrVals} {
 		for _, rec := range []bool{false, true} {
-			plans := map[string][]u.Beh{"pAe": {beh}, "pBe": {beh, u.BehOK}}
+			plans := map[string][]u.Beh{"pAe": {beh}, "pBe": {beh, u.BehOK}, "pBne": {beh}}
 			add(fmt.Sprintf("optional-never-hides-errors/%v/recover=%v", beh, rec), h.Config{Recover: rec}, plans, prefixChild,
-				alpha{scopes: scopes2, ctors: []*uFunc{pAe, pA, pBe, pBo, pCob}, invokes: []*uFunc{iAo, iBo, iCo, iO2}}, d-1, b)
+				alpha{scopes: scopes2, ctors: []*uFunc{pAe, pA, pBe, pBne, pBo, pCob}, invokes: []*uFunc{iAo, iBo, iCo, iO2, iBnO}}, d-1, b)
 		}
 	}
 	return get()
